@@ -1,21 +1,28 @@
 """C15 -- Stockholm annotations survive I/O; row2fts/fts2row invert: cases, driver, model terms, oracle."""
-import io, os, re, tempfile, zlib
+import io, os, re, shutil, sys, tempfile, zlib
 from framework import coq_bs, coq_N, coq_nat, coq_list, canon_exc
 
 ID = 'C15'
 COQ_IMPORTS = ['C15_Model']
 GENERATORS = ['gen_flags']
-MODELLED_FUNCS = {'sugar/_io/stockholm.py': ['row2fts', 'fts2row', 'read_stockholm', 'write_stockholm']}
+MODELLED_FUNCS = {'sugar/_io/stockholm.py': ['is_stockholm', 'row2fts', 'fts2row', 'read_stockholm', 'write_stockholm']}
+NO_SHRINK_KEYS = ['via', 'pos', 'in', 'out']
+# Finding "handle_pos" (found by the chain stream in round 6, fixed in /repo by fae7633; witnesses in corpus/C15/handle_pos.json):
+# binary handles were left at the 8 KiB read-ahead position of the text layer, and text files could not be read with detection
+# after a first read. Since the fix the chain stream generates every handle kind with every mixture of given / detected format
+# and compares the handle position after every step.
 OPS = {'rt': 0, 'blocks': 1, 'multi': 2, 'read': 3, 'row2fts': 4, 'fts2row': 5, 'rowrt': 6, 'ftsrt': 7, 'readc': 8, 'multiloc': 9}
 RESERVED = ['items', 'keys', 'values', 'get', 'update', 'pop', 'copy', 'setdefault', 'clear', 'popitem']
 RULE = ('abstract alignments (1-6 rows, width 1-70, random GF/GC/GS/GR sets with adversarial ids/keys/values) written by sugar and '
         'read back (StringIO handle, real files by name/Path/handle/BytesIO/glob pattern, zip/tar/gztar/bz2 archives); the same alignments rendered by an independent interleaving renderer at every '
-        'block width; 1-4 alignments per handle read repeatedly; raw texts with repeated GF/GS tags (adjacent and non-adjacent, merged with other tags and moved between sequence blocks), comments, blank lines, '
+        'block width; 1-4 alignments per handle read repeatedly; CHAINS: successive reads on ONE handle (io.StringIO, open(f) text files, BytesIO, open(f, "rb"), unbuffered FileIO, NamedTemporaryFile) over files of 1-4 alignments behind leading bytes the caller consumed (also more than the 8 KiB read-ahead), the handle positioned by read/seek/readline also behind the first alignments, the format given or auto-detected in any mixture from step to step, result AND handle offset of every step compared with the model; TRANSPORTS of the round trip (36 besides the plain string: names with neutral/no/other registered extensions, Path, text/binary handles on either side, tofmtstr/fromfmtstr, gz by extension and option, every archive kind and archive= option, stdin, DOS line ends, iter_); the COMMAND LINE converter (sugar.scripts.cli convert, in process: -f/-fo/-o in every combination that resolves to Stockholm, stdout captured; and in a subprocess through stdin/stdout) on interleaved input; BIG files (9-20 thousand columns, beyond every buffer on the way) once through every transport, handle kind and the converter (oracle only); raw texts with DOS line ends / without header line;  raw texts with repeated GF/GS tags (adjacent and non-adjacent, merged with other tags and moved between sequence blocks), comments, blank lines, '
         'shuffled markup and garbage lines; HISTORIES (several calls in one process on the same objects/texts/rows with in-place edits of baskets, of read results and of returned feature lists in between, other options and colliding inputs; every step compared with the model on the current value); random well-formed and malformed feature lists and rows for fts2row/row2fts and both '
         'compositions; features with several locations (split, nested, later start with earlier stop, both strands, any order); non-trivial = distinct case with annotations of some kind, >1 block, >1 alignment, repeated lines, '
         'shared boundary / open end / offset / long feature')
 TRUSTED = ['CPython str.strip/split(maxsplit)/startswith/find/center/upper, re.split("[.]+"), dict insertion order, sorted() stability, '
            'io.StringIO line iteration (all modelled by hand and compared on every case)',
+           'handle positions: a handle is modelled as (text, offset); detect() = is_stockholm at the offset + seek back (main.py:61-79), sniffers of other formats are C03; TextIOWrapper/gzip/shutil/argparse/print are CPython and only compared',
+           'sugar.scripts.convert modelled as read then write (scripts.py:33-45); iter_ as the rows of read (main.py:236-249)',
            'modelled: read_stockholm (stockholm.py:95-162), write_stockholm (166-203), row2fts (21-54), fts2row (57-91), '
            'BioSeq.__init__ upper-casing, Attr as insertion-ordered mapping']
 ASSUMPTIONS = ['Python str restricted to Latin-1 code points; domain restricted to printable ASCII',
@@ -41,7 +48,7 @@ def coq_fts(fts):
 
 
 def model_term(case):
-    if case.get('op') not in OPS and case.get('op') != 'hist':
+    if case.get('op') not in OPS and case.get('op') not in ('hist', 'chain', 'convert'):
         return 'out VNone'                      # (a shrunk, meaningless case)
     if case['op'] == 'hist':
         return 'out (hist_join %s)' % coq_list([model_val(st['case']) for st in case['_steps'] if 'case' in st])
@@ -50,6 +57,15 @@ def model_term(case):
 
 def model_val(case):
     op = case['op']
+    if op == 'chain':
+        return '(run_C15_chain %s %s %s %s)' % (coq_list([coq_aln(a) for a in case['alns']]), coq_bs(case['pre']),
+                                                coq_list(['true' if x else 'false' for x in case['steps']]), coq_nat(case['start']))
+    if op == 'rt' and str(case.get('via', '')).startswith('crlf'):
+        return '(run_C15_crlf %s)' % coq_aln(case['aln'])
+    if op == 'rt' and str(case.get('via', '')).startswith('iter'):
+        return '(run_C15_iter %s)' % coq_aln(case['aln'])
+    if op == 'convert':
+        return '(run_C15_convert %s %s %s)' % (coq_aln(case['aln']), coq_nat(case['bw']), 'true' if case['stdout'] else 'false')
     alns = [case['aln']] if 'aln' in case else case.get('alns', [])
     n = case.get('bw', case.get('n', 0))
     t = case.get('text', case.get('row', ''))
@@ -130,6 +146,212 @@ def mkfts(fts):
         ft.meta.name = name
         out.append(ft)
     return FeatureList(out)
+
+
+# ----------------------------------------------------------------------------- transports of the round trip
+class _Stdin:
+    """stand-in for sys.stdin of read('-') (main.py:165-166 reads sys.stdin.buffer)"""
+    def __init__(self, data):
+        self.buffer = io.BytesIO(data)
+
+
+def run_transport(b, via):
+    """write the basket and read it back through one transport; returns [text written, [canonical read, '']].
+    For the iter_ transports the alignment-level part is None (iter_ yields sequences, there is no basket)."""
+    import gzip, pathlib
+    from sugar import read, iter_, BioBasket
+    d = tempfile.mkdtemp(prefix='C15-', dir='/tmp')
+    try:
+        p = os.path.join(d, 'x.stk')
+        rows_only = False
+        if via in ('zip', 'tar', 'gztar', 'bztar', 'xztar', 'arch', 'zipopt'):      # write(..., archive=...) and read of the archive
+            b.write(p, 'stockholm', archive=True if via == 'arch' else 'zip' if via == 'zipopt' else via)
+            (name,) = os.listdir(d)
+            text = b.tofmtstr('stockholm')
+            if via == 'zipopt':                 # an archive behind a neutral name, named by the option
+                os.rename(os.path.join(d, name), os.path.join(d, 'pack.bin'))
+                r = read(os.path.join(d, 'pack.bin'), archive='zip')
+            else:
+                r = read(os.path.join(d, name))
+        elif via in ('fmtstr', 'fmtstr_fmt', 'fmtstr_bytes'):                       # BioBasket.tofmtstr / fromfmtstr
+            text = b.tofmtstr('stockholm')
+            r = (BioBasket.fromfmtstr(text) if via == 'fmtstr' else BioBasket.fromfmtstr(text, fmt='stockholm') if via == 'fmtstr_fmt'
+                 else BioBasket.fromfmtstr(text.encode('latin-1')))
+        elif via.startswith('crlf'):                                                 # the file with DOS line ends
+            text = b.tofmtstr('stockholm').replace('\n', '\r\n')
+            with open(p, 'wb') as fh:
+                fh.write(text.encode('latin-1'))
+            if via == 'crlf_sio':
+                f = io.StringIO(text)
+                r = read(f)
+                assert all(s.meta._fmt == 'stockholm' for s in r)
+                return [text, [canon(r), text[f.tell():]]]
+            if via == 'crlf_handle':
+                with open(p) as fh:
+                    r = read(fh, 'stockholm')
+            else:
+                r = read(p) if via == 'crlf_file' else read(io.BytesIO(text.encode('latin-1')))
+        elif via == 'wbytes':                                                        # binary handle on both sides
+            bio = io.BytesIO()
+            b.write(bio, 'stockholm')
+            text = bio.getvalue().decode('latin-1')
+            r = read(io.BytesIO(bio.getvalue()))
+        elif via == 'stdin':                                                         # read('-')
+            text = b.tofmtstr('stockholm')
+            old = sys.stdin
+            sys.stdin = _Stdin(text.encode('latin-1'))
+            try:
+                r = read('-')
+            finally:
+                sys.stdin = old
+        else:
+            if via == 'wpath':                                                       # format from the extension of a Path
+                b.write(pathlib.Path(p))
+            elif via in ('wext_sto', 'wext_stockholm'):                              # the other registered extensions
+                p = os.path.join(d, 'x.' + via[5:])
+                b.write(p)
+            elif via == 'whandle':
+                with open(p, 'w') as fh:
+                    b.write(fh, 'stockholm')
+            elif via in ('neutral', 'iter_neutral'):                                 # nothing in the name says Stockholm
+                p = os.path.join(d, 'x.dat')
+                b.write(p, 'stockholm')
+            elif via == 'noext':
+                p = os.path.join(d, 'x')
+                b.write(p, 'stockholm')
+            else:
+                b.write(p, 'stockholm')
+            text = open(p, newline='').read()
+            if via == 'glob':                              # a pattern matching exactly the file
+                r = read(os.path.join(d, '*.stk'))
+            elif via == 'glob2':
+                r = read(os.path.join(d, '**', 'x.st?'))
+            elif via == 'handle':
+                with open(p) as fh:
+                    r = read(fh, 'stockholm')
+            elif via == 'handle_auto':                     # text handle, format detected
+                with open(p) as fh:
+                    r = read(fh)
+            elif via == 'bytes':
+                with open(p, 'rb') as fh:
+                    r = read(io.BytesIO(fh.read()))
+            elif via == 'bhandle':                         # binary file handle, format detected
+                with open(p, 'rb') as fh:
+                    r = read(fh)
+            elif via == 'path':
+                r = read(pathlib.Path(p))
+            elif via in ('gz', 'gzopt'):                   # gzip-compressed file: by extension / by option
+                q = p + '.gz' if via == 'gz' else os.path.join(d, 'x.bin')
+                with open(p, 'rb') as fi, gzip.open(q, 'wb') as fo:
+                    fo.write(fi.read())
+                os.unlink(p)
+                r = read(q) if via == 'gz' else read(q, archive='gz')
+            elif via in ('iter', 'iter_neutral', 'iter_fmt', 'iter_handle'):   # iter_ yields the sequences with their GS/GR
+                rows_only = True
+                if via == 'iter_handle':
+                    with open(p) as fh:
+                        r = list(iter_(fh))
+                else:
+                    r = list(iter_(p, 'stockholm') if via == 'iter_fmt' else iter_(p))
+            else:
+                r = read(p)          # format auto-detected
+        assert all(s.meta._fmt == 'stockholm' for s in r)
+        if rows_only:
+            return [text, [[None, None, [[s.id, str(s), _pairs(s.meta, 'GS'), _pairs(s.meta, 'GR')] for s in r]], '']]
+        return [text, [canon(r), '']]
+    finally:
+        shutil.rmtree(d, ignore_errors=True)
+
+
+# ----------------------------------------------------------------------------- successive reads on one handle
+def run_chain(case):
+    """case: alns, pre (leading text the caller consumes), start (alignments the caller skips), pos (how the caller gets
+    there), kind (sio | tfile | bio | bfile | raw | ntf), steps (1 = format detected, 0 = format given).
+    Returns [texts written, [[alignment | exception, offset behind the read], ...]]"""
+    from sugar import read
+    texts = [build(a).tofmtstr('stockholm') for a in case['alns']]
+    pre, kind, steps = case['pre'], case['kind'], case['steps']
+    text = pre + ''.join(texts)
+    off = len(pre) + sum(len(t) for t in texts[:case['start']])
+    d = None
+    try:
+        if kind in ('tfile', 'bfile'):
+            d = tempfile.mkdtemp(prefix='C15-', dir='/tmp')
+            p = os.path.join(d, 'multi.dat')
+            with open(p, 'w', newline='') as fh:
+                fh.write(text)
+            f = open(p) if kind == 'tfile' else open(p, 'rb', buffering=0) if kind == 'raw' else open(p, 'rb')
+        elif kind == 'ntf':                      # a binary wrapper that is no io class (tempfile.NamedTemporaryFile)
+            f = tempfile.NamedTemporaryFile(prefix='C15-', dir='/tmp')
+            f.write(text.encode('latin-1'))
+            f.flush()
+            f.seek(0)
+        elif kind == 'sio':
+            f = io.StringIO(text)
+        else:
+            f = io.BytesIO(text.encode('latin-1'))
+        with f:
+            pos = case.get('pos', 'read')
+            if pos == 'seek':
+                f.seek(off)
+            elif pos == 'lines':                # (the generator asks for this only when off is at a line start)
+                n = 0
+                while n < off:
+                    n += len(f.readline())
+                assert n == off
+            else:
+                got = f.read(off)
+                assert len(got) == off
+            out = []
+            for i, au in enumerate(steps):
+                try:
+                    r = canon(read(f) if au else read(f, 'stockholm'))
+                except Exception as e:
+                    r = canon_exc(e)
+                if kind != 'tfile':
+                    where = f.tell()
+                else:                           # the position of a text file is an opaque cookie: measure what is left and go back
+                    cookie = f.tell()
+                    where = len(text) - len(f.read())
+                    f.seek(cookie)
+                out.append([r, where])
+        return [texts, out]
+    finally:
+        if d is not None:
+            shutil.rmtree(d, ignore_errors=True)
+
+
+# ----------------------------------------------------------------------------- the command-line converter
+def run_convert(case):
+    """sugar convert IN [-f stockholm] [-o OUT] [-fo stockholm] run in process (sugar.scripts.cli); IN holds the alignment in
+    blocks of bw columns. Returns [input text, [output text, [canonical read of the output, rest]]]"""
+    import contextlib
+    from sugar import read
+    from sugar.scripts import cli
+    text = render(case['aln'], case['bw'])
+    d = tempfile.mkdtemp(prefix='C15-', dir='/tmp')
+    try:
+        fin = os.path.join(d, case.get('in', 'in.stk'))
+        with open(fin, 'w', newline='') as fh:
+            fh.write(text)
+        argv = ['convert', fin] + (['-f', 'stockholm'] if case.get('f') else []) + (['-fo', 'stockholm'] if case.get('fo') else [])
+        try:
+            if case['stdout']:
+                buf = io.StringIO()
+                with contextlib.redirect_stdout(buf):
+                    cli(argv)
+                out = buf.getvalue()
+            else:
+                fout = os.path.join(d, case.get('out', 'out.stk'))
+                cli(argv + ['-o', fout])
+                out = open(fout, newline='').read()
+        except SystemExit as e:
+            raise RuntimeError('SystemExit %r' % (e.code,))
+        f = io.StringIO(out)
+        r = canon(read(f, 'stockholm'))
+        return [text, [out, [r, out[f.tell():]]]]
+    finally:
+        shutil.rmtree(d, ignore_errors=True)
 
 
 # ----------------------------------------------------------------------------- histories (state-independence stream)
@@ -261,43 +483,15 @@ def impl(case):
     op = case['op']
     if op == 'hist':
         return run_hist(case)
+    if op == 'chain':
+        return run_chain(case)
+    if op == 'convert':
+        return run_convert(case)
     if op == 'rt':
-        from sugar import read
         b = build(case['aln'])
         via = case.get('via')
         if via not in (None, '', 'str'):
-            d = tempfile.mkdtemp(prefix='C15-', dir='/tmp')
-            try:
-                p = os.path.join(d, 'x.stk')
-                if via in ('zip', 'tar', 'gztar', 'arch'):      # write(..., archive=...) and read of the produced archive
-                    b.write(p, 'stockholm', archive=True if via == 'arch' else via)
-                    (name,) = os.listdir(d)
-                    text = b.tofmtstr('stockholm')
-                    r = read(os.path.join(d, name))
-                else:
-                    b.write(p, 'stockholm')
-                    text = open(p, newline='').read()
-                    if via == 'glob':                              # a pattern matching exactly the file
-                        r = read(os.path.join(d, '*.stk'))
-                    elif via == 'glob2':
-                        r = read(os.path.join(d, '**', 'x.st?'))
-                    elif via == 'handle':
-                        with open(p) as fh:
-                            r = read(fh, 'stockholm')
-                    elif via == 'bytes':
-                        with open(p, 'rb') as fh:
-                            r = read(io.BytesIO(fh.read()))
-                    elif via == 'path':
-                        import pathlib
-                        r = read(pathlib.Path(p))
-                    else:
-                        r = read(p)          # format auto-detected
-                assert all(s.meta._fmt == 'stockholm' for s in r)
-                return [text, [canon(r), '']]
-            finally:
-                for fn in os.listdir(d):
-                    os.unlink(os.path.join(d, fn))
-                os.rmdir(d)
+            return run_transport(b, via)
         text = b.tofmtstr('stockholm')
         return [text, reads(text, 1)[0]]
     if op == 'blocks':
@@ -373,7 +567,7 @@ def render(a, bw, rng=None, o=None, info=None):
             last = c
         return parts
 
-    head = ['# STOCKHOLM 1.0']
+    head = [] if o.get('nohead') else ['# STOCKHOLM 1.0']     # (the header line is only needed for detection)
     # every GF / GS entry is a queue of fragments; the queues are merged in random order, so repeats of one tag are
     # adjacent or separated by lines of other tags (Rfam/Pfam RN/RM/RT reference groups, split CC lines)
     queues = [['#=GF', '', k, frags(v)] for k, v in a['gf']]
@@ -458,6 +652,11 @@ def canon_aln_ordered(a, info):
 EMPTY = [[], [], []]
 
 
+def n_lines(a):
+    """lines of the single-block form: header, terminator, one per GF / GS / GR / GC entry and per sequence"""
+    return 2 + len(a['gf']) + len(a['gc']) + sum(1 + len(r[2]) + len(r[3]) for r in a['rows'])
+
+
 # ----------------------------------------------------------------------------- independent row oracle
 def spec_row2fts(row):
     """Features of an annotation row from first principles: '|' are boundary columns, a feature is a stretch between two
@@ -524,10 +723,47 @@ def spec(case, got):
         if isinstance(got, dict):
             return 'raised %s' % got['e']
         text, (parsed, rest) = got
-        if parsed != canon_aln(case['aln']):
+        exp = canon_aln(case['aln'])
+        if parsed[0] is None and parsed[1] is None and str(case.get('via', '')).startswith('iter'):
+            if parsed[2] != exp[2]:             # iter_: every sequence with its own GS / GR
+                return 'iter_ gives %r' % (parsed[2],)
+        elif parsed != exp:
             return 'read back %r' % (parsed,)
         if rest != '':
             return 'rest of handle %r' % rest
+        if op == 'rt' and text.count('\n') != n_lines(case['aln']):
+            return 'written text has %d lines, expected one per entry: %d' % (text.count('\n'), n_lines(case['aln']))
+        return None
+    if op == 'chain':
+        if isinstance(got, dict):
+            return 'raised %s' % got['e']
+        texts, steps = got
+        if len(texts) != len(case['alns']) or len(steps) != len(case['steps']):
+            return 'shape'
+        end = len(case['pre']) + sum(len(t) for t in texts)
+        for i, (r, where) in enumerate(steps):
+            k = case['start'] + i
+            exp = canon_aln(case['alns'][k]) if k < len(texts) else EMPTY
+            if r != exp:
+                return 'read %d on the handle (%s, format %s) gives %r, expected alignment %d' % (
+                    i, case['kind'], 'detected' if case['steps'][i] else 'given', r, k)
+            expoff = min(end, len(case['pre']) + sum(len(t) for t in texts[:k + 1]))
+            if where != expoff:
+                return 'read %d leaves the handle at %r, the alignment ends at %d' % (i, where, expoff)
+        return None
+    if op == 'convert':
+        if isinstance(got, dict):
+            return 'raised %s' % got['e']
+        text, res = got
+        if isinstance(res, dict):
+            return 'converter raised %s' % res['e']
+        out, (parsed, rest) = res
+        if parsed != canon_aln(case['aln']):
+            return 'converted file reads as %r' % (parsed,)
+        if rest != ('\n' if case['stdout'] else ''):
+            return 'rest behind the converted alignment %r' % rest
+        if out.count('\n') != n_lines(case['aln']) + (1 if case['stdout'] else 0):
+            return 'converted text has %d lines' % out.count('\n')
         return None
     if op == 'multi':
         if isinstance(got, dict):
@@ -572,6 +808,8 @@ def spec(case, got):
             return None          # (a shrunk text no longer belongs to its expectation)
         if isinstance(got, dict):
             return 'raised %s' % got['e']
+        if not isinstance(case['expect'], list) or len(case['expect']) < len(got):
+            return None          # (a shrunk expectation)
         for i, (parsed, rest) in enumerate(got):
             if parsed != case['expect'][i]:
                 return 'read %d gives %r' % (i, parsed)
@@ -908,20 +1146,79 @@ def gen_hist_stk(rng):
     return {'op': 'hist', '_kind': 'stk', '_steps': fixed + keep}
 
 
-VIAS = ['file', 'glob', 'zip', 'handle', 'tar', 'glob2', 'arch', 'path', 'gztar', 'bytes']
+VIAS = ['file', 'glob', 'zip', 'handle', 'tar', 'glob2', 'arch', 'path', 'gztar', 'bytes',
+        # round 6: names that say nothing (detection by content), the other registered extensions, Path / handle / BytesIO on the
+        # write side, tofmtstr / fromfmtstr, gzip by extension and by option, the remaining archive kinds, an archive named by the
+        # option only, stdin, detected reads from text and binary file handles, iter_ (sequences with their GS / GR)
+        'neutral', 'fmtstr', 'wpath', 'iter', 'gz', 'handle_auto', 'wbytes', 'bztar', 'noext', 'fmtstr_fmt', 'whandle', 'bhandle',
+        'iter_neutral', 'gzopt', 'wext_sto', 'xztar', 'stdin', 'fmtstr_bytes', 'iter_fmt', 'zipopt', 'wext_stockholm', 'iter_handle',
+        'crlf_sio', 'crlf_file', 'crlf_bytes', 'crlf_handle']
+PRES = ['', '', 'junk\n', '# a comment line\n', 'x', '>fasta-like header\nACGT\n', 'LOCUS       X', '{"a": 1}\n', '\n\n',
+        'leading bytes without a newline', '# STOCKHOLM 1.0\n#=GF ID lost\n', 'a ACGU\n//\n', '##gff-version 3\n']
+
+
+def gen_chain(rng, T=False):
+    """successive reads on one handle: 1-4 alignments, each with annotations of its own, behind leading bytes the caller
+    consumed; the caller may also skip the first alignments; the format is given or detected at each step"""
+    m = rng.choice([1, 2, 2, 2, 3, 3, 4])
+    alns = []
+    for i in range(m):
+        a = gen_aln(rng, maxrows=3, maxw=20 if not T else 40, small=rng.random() < 0.5)
+        if not a['gf'] and rng.random() < 0.8:
+            a['gf'] = [['ID', 'n%d' % i]]
+        alns.append(a)
+    if m > 1 and rng.random() < 0.1:
+        alns[rng.randrange(1, m)] = alns[0]                      # the same alignment twice: only the position tells them apart
+    if rng.random() < 0.05:
+        alns[rng.randrange(m)] = spoil_aln(rng, gen_aln(rng, maxrows=2, maxw=8))
+    pre = rng.choice(PRES) if rng.random() < 0.8 else gen_val(rng) + rng.choice(['\n', '', ' '])
+    if rng.random() < 0.02:
+        # more leading bytes than the 8 KiB the text layer of a binary handle reads ahead
+        pre = ('# ' + 'x' * rng.choice([8180, 8192, 9000]) + '\n') + pre
+    kind = rng.choice(['sio', 'sio', 'tfile', 'tfile', 'bio', 'bio', 'bfile', 'bfile', 'raw', 'ntf'])
+    start = rng.choice([0, 0, 0, 1, rng.randint(0, m)])
+    start = min(start, m)
+    left = m - start
+    n = left + rng.choice([0, 0, 1])
+    steps = [rng.choice([0, 1]) if i < left else 0 for i in range(n)] or [0]
+    if rng.random() < 0.04:
+        steps.append(1)                                          # detection with nothing left: outside the domain
+    poss = ['read'] + (['seek'] if kind != 'tfile' else []) + (['lines'] if pre == '' or pre.endswith('\n') else [])
+    return {'op': 'chain', 'alns': alns, 'pre': pre, 'start': start, 'kind': kind, 'pos': rng.choice(poss), 'steps': steps}
+
+
+def gen_convert(rng):
+    a = gen_aln(rng, maxrows=4, maxw=24, small=rng.random() < 0.3)
+    if rng.random() < 0.06:
+        a = spoil_aln(rng, a)
+    w = len(a['rows'][0][1]) if a['rows'] else 1
+    case = {'op': 'convert', 'aln': a, 'bw': rng.choice([w, w, w + 3, max(1, w // 2), rng.randint(1, max(1, w))]),
+            'stdout': rng.random() < 0.5, 'in': rng.choice(['in.stk', 'in.sto', 'in.dat', 'in']), 'f': rng.random() < 0.4}
+    if case['stdout']:
+        case['fo'] = rng.random() < 0.5
+    else:
+        case['out'] = rng.choice(['out.stk', 'out.sto', 'out.stockholm', 'out.dat', 'out.txt'])
+        case['fo'] = case['out'] in ('out.dat', 'out.txt') or rng.random() < 0.4
+    return case
 
 
 def gen_cases(rng, tier):
     T = tier == 'thorough'
     cases = []
     # --- write -> read
-    for i in range(4000 if T else 330):
+    for i in range(4000 if T else 400):
         a = gen_aln(rng, small=rng.random() < 0.2)
         if rng.random() < 0.12:
             a = spoil_aln(rng, a)
         if rng.random() < 0.1:
             a['empties'] = True
-        cases.append({'op': 'rt', 'aln': a, 'via': VIAS[(i // 3) % len(VIAS)] if i % 3 == 0 else 'str'})
+        cases.append({'op': 'rt', 'aln': a, 'via': VIAS[(i // 2) % len(VIAS)] if i % 2 == 0 else 'str'})
+    # --- successive reads on one handle: text and binary handles, files, offsets, given / detected format (round 6)
+    for i in range(4000 if T else 300):
+        cases.append(gen_chain(rng, T))
+    # --- the command-line converter as a transport (round 6)
+    for i in range(800 if T else 90):
+        cases.append(gen_convert(rng))
     # --- interleaved rendering, every block width for small alignments
     for i in range(400 if T else 40):
         a = gen_aln(rng, maxrows=4, maxw=12 if not T else 20, small=rng.random() < 0.3)
@@ -942,7 +1239,8 @@ def gen_cases(rng, tier):
     # --- raw texts
     for i in range(3500 if T else 280):
         alns = [gen_aln(rng, maxrows=4, maxw=24, small=rng.random() < 0.4) for _ in range(rng.choice([1, 1, 2, 3]))]
-        o = {'seps': rng.random() < 0.5, 'splitgf': rng.random() < 0.6, 'move': rng.random() < 0.4, 'noise': rng.random() < 0.5}
+        o = {'seps': rng.random() < 0.5, 'splitgf': rng.random() < 0.6, 'move': rng.random() < 0.4, 'noise': rng.random() < 0.5,
+             'nohead': rng.random() < 0.12}
         texts, expect, nonadj = [], [], False
         for k, a in enumerate(alns):
             oo = dict(o)
@@ -954,6 +1252,8 @@ def gen_cases(rng, tier):
             expect.append(canon_aln_ordered(a, info))
             nonadj = nonadj or info['nonadjacent']
         text = ''.join(texts)
+        if rng.random() < 0.2:
+            text = text.replace('\n', '\r\n')      # DOS line ends
         n = len(alns) + rng.choice([0, 1])
         expect = expect + [EMPTY]
         case = {'op': 'read', 'text': text, 'n': n, 'expect': expect[:n], 'split': o['splitgf'], 'moved': o['move'], 'nonadj': nonadj,
@@ -1049,6 +1349,12 @@ def nontrivial(case, got):
         return ('rt:' + kinds + ':' + str(case.get('via'))) if kinds else None
     if op == 'multi':
         return 'multi' if len(case['alns']) > 1 else None
+    if op == 'chain':
+        return 'chain:%s:%s%s%s' % (case['kind'], 'auto' if any(case['steps']) else '', 'mixed' if 0 in case['steps'] and 1 in case['steps'] else '',
+                                    ':offset' if case['pre'] or case['start'] else '') if len(case['alns']) > 1 or case['pre'] else None
+    if op == 'convert':
+        a = case['aln']
+        return 'convert:%s' % ('stdout' if case['stdout'] else 'file') if (a['gf'] or a['gc']) else None
     if op == 'read':
         return 'read:%s%s%s' % ('split' if case.get('split') else '', 'moved' if case.get('moved') else '',
                                 'nonadj' if case.get('nonadj') else '') if case.get('expect') else 'garbage'
@@ -1087,6 +1393,12 @@ def histkey(case, got):
         ks.append('rows=%d' % len(case['aln']['rows']))
     if op == 'multi':
         ks.append('alignments=%d' % len(case['alns']))
+    if op == 'chain':
+        ks += ['handle=' + case['kind'], 'chain_alignments=%d' % len(case['alns']), 'chain_steps=%d' % len(case['steps']),
+               'chain_detect=%d' % sum(case['steps']), 'chain_pos=' + case.get('pos', 'read') + ('+pre' if case['pre'] else '') + ('+skip' if case['start'] else '')]
+        return ks
+    if op == 'convert':
+        return ks + ['convert=' + ('stdout' if case['stdout'] else case.get('out', '')) + (' -f' if case.get('f') else '') + (' -fo' if case.get('fo') else '')]
     if op in ('row2fts', 'rowrt'):
         n = len(case['row'])
         ks.append('rowlen=' + ('0' if n == 0 else '1-9' if n < 10 else '10-99' if n < 100 else '100+'))
@@ -1114,7 +1426,7 @@ def python_snippet(case):
         return ('import json, sys; sys.path.insert(0, "/verif/tools"); from props import c15\n'
                 '# one process, steps in order; each compared step must equal the single call on the current value\n'
                 'for o in c15.impl(json.loads(%r)): print(o)' % __import__('json').dumps(case))
-    if op in ('rt', 'multi'):
+    if op in ('rt', 'multi', 'chain', 'convert'):
         return ('import io, json, sys; sys.path.insert(0, "/verif/tools"); from props import c15; from sugar import read\n'
                 'case = json.loads(%r)\nprint(c15.impl(case))' % __import__('json').dumps(case))
     if op in ('blocks', 'read'):
@@ -1131,32 +1443,119 @@ def python_snippet(case):
             'r = fts2row(c15.mkfts(%r)); print(repr(r)); print([c15.ft_tuple(f) for f in row2fts(r)])' % (case['fts'],))
 
 
+# ----------------------------------------------------------------------------- relational checks without a model
+def extra_checks(rng, tier, cov):
+    """the real command line in a subprocess: `sugar convert - -fo stockholm` fed through stdin, and IN -> -o OUT;
+    every GF/GC/GS/GR annotation must arrive (stdin, stdout and the process boundary are the transport)"""
+    import subprocess
+    import sugar
+    from sugar import read
+    # files larger than any buffer on the way (8 KiB text-layer read-ahead, gzip / archive blocks): every transport and every
+    # handle kind once with alignments 9-20 thousand columns wide; property oracle only (the theorems are size independent)
+    from framework import jcanon
+    nbig = 0
+    for via in VIAS + ['chain:sio', 'chain:tfile', 'chain:bio', 'chain:bfile', 'chain:raw', 'chain:ntf', 'convert:file', 'convert:stdout']:
+        alns = []
+        for j in range(3 if via.startswith('chain') else 1):
+            w = rng.choice([9000, 12000, 20000])
+            a = {'gf': [['ID', 'big%d' % j]] + [['CC', ' '.join(gen_word(rng, hi=7) for _ in range(12))]] + [[k, gen_val(rng)] for k in gen_keys(rng, 3) if k not in ('ID', 'CC')],
+                 'gc': [['SS_cons', gen_word(rng, '<>.', w, w)]],
+                 'rows': [['s%d/1-%d' % (i, w), gen_word(rng, 'ACGU-', w, w), [['DE', gen_val(rng)]] if i else [], [['SS', gen_word(rng, '().', w, w)]] if i != 1 else []]
+                          for i in range(3)]}
+            alns.append(a)
+        if via.startswith('chain'):
+            kind = via[6:]
+            case = {'op': 'chain', 'alns': alns, 'pre': rng.choice(['', 'junk\n']), 'start': 0, 'kind': kind, 'pos': 'read',
+                    'steps': [1, 0, 1, 0]}
+        elif via.startswith('convert'):
+            case = {'op': 'convert', 'aln': alns[0], 'bw': rng.choice([60, 200, 8192]), 'stdout': via == 'convert:stdout', 'in': 'in.dat',
+                    'out': 'out.sto', 'f': False, 'fo': via == 'convert:stdout'}
+        else:
+            case = {'op': 'rt', 'aln': alns[0], 'via': via}
+        try:
+            iv = jcanon(impl(case))
+        except Exception as e:
+            iv = canon_exc(e)
+        nbig += 1
+        why = spec(case, iv)
+        if why:
+            small = dict(case, alns='(3 alignments, 9-20 thousand columns)') if 'alns' in case else dict(case, aln='(one alignment, %d columns)' % len(case['aln']['rows'][0][1]))
+            yield {'case': small, 'impl': str(iv)[:300], 'spec': 'big file: ' + why[:300]}
+    cov['big_file_transports'] = nbig
+    env = dict(os.environ, PYTHONPATH=os.path.dirname(os.path.dirname(os.path.abspath(sugar.__file__))), PYTHONWARNINGS='ignore')
+    n = 0
+    for i in range(24 if tier == 'thorough' else 4):
+        a = gen_aln(rng, maxrows=4, maxw=30, small=rng.random() < 0.3)
+        if not (a['gf'] or a['gc']):
+            a['gf'] = [['ID', 'x%d' % i]]
+        w = len(a['rows'][0][1])
+        text = render(a, rng.choice([w, max(1, w // 2)]))
+        mode = ['stdin', 'file'][i % 2]
+        case = {'op': 'cli-subprocess', 'mode': mode, 'aln': a, 'text': text}
+        d = tempfile.mkdtemp(prefix='C15-', dir='/tmp')
+        try:
+            fin, fout = os.path.join(d, 'in.dat'), os.path.join(d, 'out.sto')
+            with open(fin, 'w', newline='') as fh:
+                fh.write(text)
+            argv = ['convert', '-', '-fo', 'stockholm'] if mode == 'stdin' else ['convert', fin, '-o', fout]
+            with open(fin, 'rb') as stdin:
+                pr = subprocess.run([sys.executable, '-c', 'import sys; from sugar.scripts import cli; cli(sys.argv[1:])'] + argv,
+                                    stdin=stdin, capture_output=True, env=env, cwd=d, timeout=120)
+            n += 1
+            if pr.returncode != 0:
+                yield {'case': case, 'impl': {'rc': pr.returncode, 'stderr': pr.stderr.decode('latin-1')[-400:]},
+                       'spec': 'sugar convert (%s) failed with exit status %d' % (mode, pr.returncode)}
+                continue
+            out = pr.stdout.decode('latin-1') if mode == 'stdin' else open(fout, newline='').read()
+            try:
+                got = canon(read(io.StringIO(out), 'stockholm'))
+            except Exception as e:
+                got = canon_exc(e)
+            if got != canon_aln(a):
+                yield {'case': case, 'impl': [out, got], 'spec': 'sugar convert (%s, subprocess) gives %r' % (mode, got)}
+        finally:
+            shutil.rmtree(d, ignore_errors=True)
+    cov['cli_subprocess_runs'] = n
+
+
 LEVEL_TEXT = ('Machine-checked Coq theorems over a line-by-line Gallina model of sugar/_io/stockholm.py, all for unbounded inputs: '
               'for every well-formed alignment (any number of rows, any width, arbitrary GF/GC/GS/GR sets) read(write(a)) = a with every '
               'annotation attached to the same alignment/sequence and all orders kept; the reader stops after the first "//" and returns '
               'the rest of the handle, so n+1 successive reads of n concatenated alignments return them in turn and then an empty basket; '
+              'HANDLE POSITIONS (round 6): with a handle modelled as text + offset, a read at the offset behind any leading bytes and the '
+              'first k alignments - format given or detected - returns alignment k and moves the handle by exactly the length of its text '
+              '(read_at_offset), hence for any mixture of given/detected format step k of a chain returns alignment k and offset k+1 = '
+              'offset k + len(text k) (chain_offsets, by induction on the list of alignments; also for every block layout, for DOS line '
+              'ends, and followed by an empty basket at the end of the file), the offsets tile the file; the sniffer accepts every written '
+              'text; white space before the line ends (blanks, tabs, "\\r") changes nothing, blank/comment/header lines may stand anywhere, the terminator of the last alignment and (format given) the header line may be missing; the command-line converter is the identity on '
+              'written files and maps every interleaved file to the single-block text, so all annotations survive it; iter_ yields every '
+              'sequence with its GS/GR; the writer emits exactly one line per entry (write_layout); GC/GR values read from block-consistent '
+              'files are as wide as the rows (width_invariant, read_widths); '
               'the interleaved rendering at EVERY block width reads to the same result as the single-block form, and for ANY placement of '
               'lines every GC/GR/sequence key reads as the concatenation of its fragments; all fragments of a repeated GF/GS tag (adjacent '
               'or not) are joined by single spaces in file order. row2fts/fts2row: for every well-formed feature list of any length, width '
               'and names row2fts(fts2row(l)) = sorted l (boundaries, names incl. the name repetition of wide features, shared boundary '
               'columns, open ends, offset of the first feature; the row ends at the last stop); for every well-formed row of any length '
               'row2fts(fts2row(row2fts(r))) = row2fts(r); rows made by fts2row are fixed points. The model is tied to /repo by running '
-              'sugar (public read/write entry points, StringIO handles and real files) and the model on the same generated cases on every '
-              'run (151/151 statements of stockholm.py executed in the quick tier), and by an independent Python oracle (own interleaving '
-              'renderer, own row parser).')
-LEVEL_NOTE = ('All 23 theorems closed under the global context (no axioms). Proved for all inputs: stk_roundtrip, stk_stop, stk_multi, '
+              'sugar (public read/write/iter_/cli entry points; StringIO, BytesIO, text and binary file handles, real files, archives, '
+              'stdin/stdout) and the model on the same generated cases on every run (every statement of stockholm.py executed in the quick '
+              'tier), and by an independent Python oracle (own interleaving renderer, own row parser, own offsets).')
+LEVEL_NOTE = ('All 43 theorems closed under the global context (no axioms). Proved for all inputs: stk_roundtrip, stk_stop, stk_multi, '
               'stk_interleave(+_stop), stk_columns_anywhere, stk_gf_join, stk_gs_join, gf_all_frags, gs_all_frags, read_text_gf_join, '
-              'read_text_gs_join, lines_items, row_fts_inverse, row_fts_row, row_canonical, range_spec, range_perm, multi_ft_range (a feature with several locations is drawn over min(starts)..max(stops), independent of the order of the locations); the two bounded-box theorems '
-              '(row_fts_row_box, fts_row_fts_box, box_sizes) are kept as regression. Tested only (correspondence): state independence of the calls (history stream: 300 histories in quick; the pure model is the expectation of every step); that the Gallina model '
-              'is sugar (every case, both tiers); writer behaviour for absent/empty _stockholm containers; comments=[] collection; the transports of the round trip (plain name, pathlib.Path, text handle, BytesIO, glob patterns matching '
-              'exactly the file, write(archive=zip|tar|gztar|True) + read of the archive: all must give the model round trip); which '
+              'read_text_gs_join, lines_items, row_fts_inverse, row_fts_row, row_canonical, range_spec, range_perm, multi_ft_range (a feature with several locations is drawn over min(starts)..max(stops), independent of the order of the locations); '
+              'round 6: is_stockholm_written, read_at_offset, chain_offsets, chain_any_layout, chain_then_empty, chain_crlf, offsets_tile, read_at_eof, '
+              'read_trailing_ws, read_crlf, noise_ignored, read_text_noise (deleting every blank, comment and header line of ANY text does not change the alignment read), read_unterminated, read_headerless, convert_fixpoint, convert_blocks, iter_rows, write_layout, width_invariant, read_widths; the two bounded-box theorems '
+              '(row_fts_row_box, fts_row_fts_box, box_sizes) are kept as regression. '
+              'Finding handle_pos (found by the chain stream of round 6, FIXED in /repo by fae7633, witnesses in corpus/C15/handle_pos.json): before the fix "successive reads on one handle" held on io.StringIO and on text files read with the format given only; a BINARY handle (BytesIO, open(f,"rb")) was left at the 8 KiB read-ahead position of the text layer (second read: empty basket / IOError, alignments silently lost) and a text FILE handle could not be read with detection after a first read (OSError: telling position disabled by next()). The chain stream now generates StringIO, open(f), BytesIO, open(f,"rb"), unbuffered FileIO and NamedTemporaryFile handles with every mixture of given / detected format and compares alignment AND handle position after every step. '
+              'Tested only (correspondence): that a real handle behaves like (text, offset) - f.tell() of StringIO / binary handles, the measured rest of text files (position cookie restored); the transports (36 ways to write and read back incl. archives, gz, stdin, Path, neutral names, DOS line ends through universal-newline handles); argparse option handling of the converter (only combinations resolving to Stockholm; which format wins otherwise is C03); the subprocess CLI; state independence of the calls (history stream: 300 histories in quick; the pure model is the expectation of every step); that the Gallina model '
+              'is sugar (every case, both tiers); writer behaviour for absent/empty _stockholm containers; comments=[] collection; which '
               'location of a multi-location feature carries the end flags (strand-sorted first/last; modelled, compared); error classes on malformed '
-              'rows/feature lists. fts2row(row2fts(row)) = row on arbitrary rows is NOT claimed (false by design: names are re-centred and '
+              'rows/feature lists. Not claimed: what a detected read does at a position where no alignment starts (other sniffers: C03; outside chain_ok). fts2row(row2fts(row)) = row on arbitrary rows is NOT claimed (false by design: names are re-centred and '
               'trailing dots dropped); the statement is on the feature level plus the fixed-point theorem. No unreachable statements in the '
-              'modelled functions (row2fts, fts2row, read_stockholm, write_stockholm: 142/142 executed; the two asserts of row2fts never '
+              'modelled functions (is_stockholm, row2fts, fts2row, read_stockholm, write_stockholm; the two asserts of row2fts never '
               'fail, shown by the model never reaching them). Trusted: Coq kernel/vm_compute, tools/gens/flags.py, the correspondence '
               'harness, CPython str/dict/re/io primitives as modelled (Latin-1 only). Modelled rather than verified: read_stockholm, '
-              'write_stockholm, row2fts, fts2row, BioSeq upper-casing, Attr as ordered mapping. Domain: printable ASCII; ids non-empty, no '
+              'write_stockholm, is_stockholm, row2fts, fts2row, the position bookkeeping of detect(), convert as read+write, iter_ as rows of read, BioSeq upper-casing, Attr as ordered mapping. Domain: printable ASCII; ids non-empty, no '
               'whitespace, not starting with "#" or "//" (such lines are markup/terminator in the format); keys outside the reserved set of '
               'open finding F20; GF/GS values non-empty, stripped, newline-free; rows of equal width >= 1, upper-case residues; feature '
               'lists: single-location features sharing at most a boundary column, names over [A-Za-z0-9_] (the proofs only need names '
